@@ -80,14 +80,53 @@ impl<K, V> Slot<K, V> {
     }
 }
 
-/// The slot array: inline, or - under `--cfg vcoll_boxmap` (builder build only) - one heap box per map, which
-/// hides the niches of K/V (e.g. the 128-bit tag of an `Option<u128>` inside an endpoint) from the layout of every
-/// type that contains a map: Kani 0.68 crashes (rvalue.rs:1009, `u64::try_from(niche_start)`) when an enum such as
-/// `Result<SessionBuilder<_>, GgrsError>` keeps its discriminant in a 128-bit niche.
-#[cfg(not(vcoll_boxmap))]
+/// The slot array. Normally the plain inline array. Two alternative representations hide the niches of K/V (e.g. the
+/// 128-bit tag of an `Option<u128>` inside an endpoint) from the layout of every type that contains a map, because
+/// Kani 0.68 crashes (rvalue.rs:1009, `u64::try_from(niche_start)`) when an enum such as
+/// `Result<SessionBuilder<_>, GgrsError>` keeps its discriminant in a 128-bit niche:
+///  * `--cfg vcoll_boxmap`: one heap box per map (simple, but CBMC does not constant-fold heap state: slow);
+///  * `--cfg vcoll_hideniche` (builder build): still inline, wrapped in `MaybeUninit` (a union has no niche). The
+///    array is initialised at construction and stays initialised; the three `unsafe` blocks below only assert that.
+#[cfg(not(any(vcoll_boxmap, vcoll_hideniche)))]
 type Slots<K, V> = [Slot<K, V>; CAP];
 #[cfg(vcoll_boxmap)]
 type Slots<K, V> = Box<[Slot<K, V>; CAP]>;
+#[cfg(vcoll_hideniche)]
+pub struct Slots<K, V>(std::mem::MaybeUninit<[Slot<K, V>; CAP]>);
+#[cfg(vcoll_hideniche)]
+#[allow(unsafe_code)]
+mod hidden {
+    use super::{Slot, Slots, CAP};
+    impl<K, V> std::ops::Deref for Slots<K, V> {
+        type Target = [Slot<K, V>; CAP];
+        fn deref(&self) -> &Self::Target {
+            unsafe { self.0.assume_init_ref() }
+        }
+    }
+    impl<K, V> std::ops::DerefMut for Slots<K, V> {
+        fn deref_mut(&mut self) -> &mut Self::Target {
+            unsafe { self.0.assume_init_mut() }
+        }
+    }
+    impl<K, V> Drop for Slots<K, V> {
+        fn drop(&mut self) {
+            unsafe { self.0.assume_init_drop() }
+        }
+    }
+    impl<K, V> Slots<K, V> {
+        pub(super) fn empty() -> Self {
+            Slots(std::mem::MaybeUninit::new([const { Slot::EMPTY }; CAP]))
+        }
+        pub(super) fn into_array(mut self) -> [Slot<K, V>; CAP] {
+            std::mem::replace(&mut *self, [const { Slot::EMPTY }; CAP])
+        }
+    }
+    impl<K: Clone, V: Clone> Clone for Slots<K, V> {
+        fn clone(&self) -> Self {
+            Slots(std::mem::MaybeUninit::new((**self).clone()))
+        }
+    }
+}
 
 #[derive(Clone)]
 pub struct HashMap<K, V> {
@@ -96,13 +135,17 @@ pub struct HashMap<K, V> {
 }
 
 impl<K, V> Default for HashMap<K, V> {
-    #[cfg(not(vcoll_boxmap))]
+    #[cfg(not(any(vcoll_boxmap, vcoll_hideniche)))]
     fn default() -> Self {
         Self { slots: [const { Slot::EMPTY }; CAP], count: 0 }
     }
     #[cfg(vcoll_boxmap)]
     fn default() -> Self {
         Self { slots: Box::new([const { Slot::EMPTY }; CAP]), count: 0 }
+    }
+    #[cfg(vcoll_hideniche)]
+    fn default() -> Self {
+        Self { slots: Slots::empty(), count: 0 }
     }
 }
 
@@ -227,11 +270,6 @@ impl<K, V> Iterator for IntoIter<K, V> {
 }
 
 impl<K, V> HashMap<K, V> {
-    #[cfg(not(vcoll_boxmap))]
-    fn slots_ref(&self) -> &[Slot<K, V>; CAP] {
-        &self.slots
-    }
-    #[cfg(vcoll_boxmap)]
     fn slots_ref(&self) -> &[Slot<K, V>; CAP] {
         &self.slots
     }
@@ -438,10 +476,12 @@ impl<K: PartialEq, V> IntoIterator for HashMap<K, V> {
     type IntoIter = IntoIter<K, V>;
     fn into_iter(self) -> Self::IntoIter {
         let mut v: Vec<Slot<K, V>> = Vec::with_capacity(CAP);
-        #[cfg(not(vcoll_boxmap))]
+        #[cfg(not(any(vcoll_boxmap, vcoll_hideniche)))]
         let arr = self.slots;
         #[cfg(vcoll_boxmap)]
         let arr = *self.slots;
+        #[cfg(vcoll_hideniche)]
+        let arr = self.slots.into_array();
         for s in arr {
             v.push(s);
         }
